@@ -5,6 +5,7 @@
 //	race <n> <step> <ops T1> <ops T2> … | <schedule>     controlled scheduler on a wheel without ticker goroutine
 //	time <step> <n> | <id>,<t|a>,<at>,<d>[,<delay>/<arg|->]… …   real wheel + ticker under the runtime's virtual clock
 //	pure <step> <n> <base> <arg|->                        NewTimer(base); Reset(arg) on a wheel that never ticks
+//	ctor <step> <n>                                       NewWheel(step, n): panics iff step <= 0 or n <= 0
 package main
 
 import (
@@ -82,6 +83,11 @@ func exec(c *hx.Ctx, line string) string {
 			return "bad-op"
 		}
 		return runPure(atoi64(w[1]), atoi(w[2]), atoi64(w[3]), w[4])
+	case "ctor":
+		if len(w) != 3 {
+			return "bad-op"
+		}
+		return runCtor(atoi64(w[1]), atoi(w[2]))
 	}
 	return "bad-op"
 }
